@@ -265,7 +265,7 @@ def run(ctx):
             ctx.violation(e.key, e.what, case=dict(what=e.what))
     for i in range(ctx.share(240 if quick else 10000)):
         try:
-            lower, nt = prebuild_variants(ctx, rng, pbgen.HOMES[i % 4])
+            lower, nt = prebuild_variants(ctx, rng, pbgen.HOMES[i % len(pbgen.HOMES)])
             ctx.case(('prebuild', lower), nt, sample=dict(stream='prebuild', program=lower[:300]))
         except Mismatch as e:
             ctx.violation(e.key, e.what, case=dict(what=e.what))
